@@ -15,7 +15,8 @@ executed under the three out-of-bounds policies.  Oracle: the comment of
 BehaviourData.h (the documentation of the calling convention), see check_case.
 
 K[0] values: integer codes -3..4, optionally +100, with a jitter of at most
-0.2 (0..0.2 for code 0: "if Ke is negative only the prediction operator is
+0.2 (0..0.2 for code 0; code 4 up to Ke=49 and code -3 down to Ke=-48: "greater
+than 3.5" / "lower than -2.5"; "if Ke is negative only the prediction operator is
 computed" and "[-0.5:0.5]: integration" contradict each other on [-0.5,0[, and
 the interval end points are inconsistent: those zones are sampled, counted in
 the class `unjudged.zone` and only required not to crash).
@@ -359,13 +360,18 @@ def fl(lo, hi):
 FACT = st.one_of(st.sampled_from([0.99, 0.98999999999999999, 0.9900000000000001, 0.98, 0.95, 0.9, 0.9899, 1.0, 1.2, 0.5, 3.0]),
                  fl(0.85, 1.1), fl(0.02, 5.0))
 SFACT = st.one_of(FACT, FACT, FACT, FACT, FACT.map(lambda x: -x), st.just(0.0))
-ZONES = st.one_of(fl(-0.5, -0.2000001), fl(0.2000001, 0.7999999), fl(-3.8, -3.2000001), fl(4.2000001, 30.0),
-                  st.sampled_from([-2.5, -1.5, -0.5, -0.25, 0.5, 1.5, 2.5, 3.5, 50.0, -10.0, 49.0]))
+ZONES = st.one_of(fl(-0.5, -0.2000001), fl(0.2000001, 0.7999999), fl(-2.7999, -2.2001), fl(-1.7999, -1.2001),
+                  fl(1.2001, 1.7999), fl(2.2001, 2.7999), fl(3.2001, 3.7999),
+                  st.sampled_from([-2.5, -1.5, -0.5, -0.25, 0.5, 1.5, 2.5, 3.5]))
 
 
 def strategy(programs):
     def req(base):
         jit = st.one_of(st.just(0.0), fl(0.0, 0.2) if base == 0 else fl(-0.2, 0.2))
+        if base == 4:    # "if Ke is greater than 3.5": consistent tangent operator (K[0] <= 50 without the flag)
+            jit = st.one_of(jit, fl(-0.2, 45.0))
+        if base == -3:   # "if Ke is lower than -2.5": tangent prediction operator
+            jit = st.one_of(jit, fl(-45.0, 0.2))
         return st.fixed_dictionaries({"base": st.just(base), "jit": jit, "flag": st.booleans()})
     reqs = st.one_of(st.integers(-3, 4).flatmap(req), st.integers(-3, 4).flatmap(req), st.integers(-3, 4).flatmap(req),
                      st.integers(-3, 4).flatmap(req),
